@@ -85,9 +85,47 @@ func (x *Executor) callStatic(fr *Frame, st *State, reach string, callee *ssa.Fu
 	}
 	inRepo := strings.HasPrefix(pkgPath, repoModule)
 	if callee.Blocks != nil && (inRepo || callee.Parent() != nil || callee.Synthetic != "") && fr.depth < maxInlineDepth && !x.onStack(callee) {
-		return x.inline(fr, st, reach, callee, bind, args, resTy)
+		// same package (or a closure / wrapper): always; other repo packages: only small leaf helpers
+		samePkg := callee.Parent() != nil || callee.Synthetic != "" || (len(x.stack) > 0 && x.stack[0].Pkg != nil && callee.Pkg == x.stack[0].Pkg)
+		if samePkg || smallLeaf(callee) {
+			return x.inline(fr, st, reach, callee, bind, args, resTy)
+		}
 	}
 	return x.havocCall(fr, st, reach, "call to "+name+" (no contract)", args, resTy)
+}
+
+// smallLeaf: a short, loop-free function that calls at most builtins and other small leaves.
+func smallLeaf(fn *ssa.Function) bool {
+	n := 0
+	for _, b := range fn.Blocks {
+		for _, s := range b.Succs {
+			if s.Dominates(b) {
+				return false // loop
+			}
+		}
+		for _, in := range b.Instrs {
+			n++
+			if _, ok := in.(*ssa.DebugRef); ok {
+				n--
+			}
+			switch c := in.(type) {
+			case *ssa.Go, *ssa.Defer, *ssa.Select, *ssa.Send:
+				return false
+			case *ssa.Call:
+				if _, isB := c.Call.Value.(*ssa.Builtin); isB {
+					continue
+				}
+				callee := c.Call.StaticCallee()
+				if callee == nil || callee == fn {
+					return false
+				}
+				if !strings.HasPrefix(callee.Name(), "ssa:") && len(callee.Blocks) > 3 {
+					return false
+				}
+			}
+		}
+	}
+	return n <= 60
 }
 
 func (x *Executor) onStack(fn *ssa.Function) bool {
@@ -267,7 +305,23 @@ func (x *Executor) applyContract(fr *Frame, st *State, reach string, con *Contra
 	}
 	// frame
 	if con.ModAll {
+		// "modifies *" with a contract: everything may change, including protected objects
+		// reachable from the arguments (their new contents are described by the ensures);
+		// the callee is trusted not to retain pointers to them beyond the call.
+		saved := map[string]types.Type{}
+		for _, t := range unionTaint(args...) {
+			if ty, ok := st.fresh[t]; ok {
+				saved[t] = ty
+				delete(st.fresh, t)
+			}
+		}
 		x.havocAll(st)
+		for t, ty := range saved {
+			st.fresh[t] = ty
+		}
+		if len(saved) > 0 {
+			u.trusted["callees with a contract do not retain pointers to caller-allocated arguments beyond the call"] = true
+		}
 	} else {
 		for _, m := range con.Modifies {
 			if err := x.havocLoc(env, st, pre, m); err != nil {
@@ -283,12 +337,20 @@ func (x *Executor) applyContract(fr *Frame, st *State, reach string, con *Contra
 		u.assume(fmt.Sprintf("(forall ((r Int)) (! (=> (select %s r) (select %s r)) :pattern ((select %s r))))", old, n, old))
 	}
 	res := x.freshResult(st, resTy, false)
-	res.Taint = unionTaint(args...)
-	for i := range res.Tup {
-		res.Tup[i].Taint = res.Taint
+	// a result may alias a caller-allocated argument only if it has that argument's type
+	// (e.g. AddGas returns its receiver); anything else would have to be stated by the contract
+	aliasTaint := func(rt types.Type) []string {
+		var from []Val
+		for _, a := range args {
+			if a.Ty != nil && rt != nil && types.Identical(a.Ty, rt) {
+				from = append(from, a)
+			}
+		}
+		return unionTaint(from...)
 	}
-	if con.ModAll {
-		x.escape(st, args...)
+	res.Taint = aliasTaint(res.Ty)
+	for i := range res.Tup {
+		res.Tup[i].Taint = aliasTaint(res.Tup[i].Ty)
 	}
 	// bind results
 	if len(res.Tup) > 0 {
@@ -333,7 +395,9 @@ func (x *Executor) havocLoc(env *Env, st, pre *State, m Expr) error {
 	if sel, ok := m.(*ESel); ok {
 		if id, ok := sel.X.(*EIdent); ok {
 			if ty := x.lookupTypeName(env, id.Name); ty != nil {
-				if _, isS := ty.Underlying().(*types.Struct); isS {
+				_, isS := ty.Underlying().(*types.Struct)
+				_, isI := ty.Underlying().(*types.Interface)
+				if isS || isI {
 					if sel.Name == "*" {
 						return fmt.Errorf("T.* not supported")
 					}
@@ -349,6 +413,13 @@ func (x *Executor) havocLoc(env *Env, st, pre *State, m Expr) error {
 			return err
 		}
 		base := pv.Ty
+		if _, isIface := base.Underlying().(*types.Interface); isIface {
+			comp, _ := u.fieldComp(base, sel.Name)
+			fty := fieldType(u, base, sel.Name)
+			nv := u.freshConst("mod$"+sel.Name, u.sortOf(fty))
+			x.heapSet(st, comp, fmt.Sprintf("(store %s (i.val %s) %s)", x.heapGet(st, comp), pv.T, nv))
+			return nil
+		}
 		pt, isPtr := base.Underlying().(*types.Pointer)
 		if !isPtr {
 			return fmt.Errorf("modifies %s: base is not a pointer", m.String())
